@@ -586,7 +586,7 @@ class ConcModel(Comp):
 
     def witness(self, line, model_out, impl_out):
         r = parse_out(impl_out)
-        if impl_out.startswith("CRASH(") or impl_out == "TIMEOUT":
+        if impl_out.startswith("CRASH(") or impl_out in ("TIMEOUT", "HANG"):
             return (None, impl_out)
         if r is None:
             return None
@@ -617,7 +617,7 @@ class ConcSerial:
     kinds = ["rel", "tsan"]
     quick_sanitize = True
     shards = 4
-    timeout = 900
+    timeout = 300
 
     def gen(self, rng, tier, scale=1.0):
         L = [witness_err_rec(), witness_canon()]
@@ -643,8 +643,8 @@ class ConcSerial:
         # and ThreadSanitizer reports with other stacks are not.
         may_err_race = ((not prime) and nthr >= 6) or line == witness_err_rec()
         may_canon_race = (not warm) and f[4] != "-1"
-        if out.startswith("CRASH(") or out == "TIMEOUT":
-            if may_err_race and out != "TIMEOUT":
+        if out.startswith("CRASH(") or out in ("TIMEOUT", "HANG"):
+            if may_err_race and out.startswith("CRASH("):
                 return ("err-rec-resize", "%s in a case where >= 6 threads create their error records concurrently" % out)
             return (None, out)
         r = parse_out(out)
